@@ -672,10 +672,6 @@ func indexGuarded(f *Func, g *Graph, n ast.Node, x, index ast.Expr) (bool, strin
 	if sameLen {
 		return true, "range index over a slice of the length this one was made with"
 	}
-	// x[i] after `if i == len(x) { return }`
-	if g.HoldsAt(loc, Rel{is, token.NEQ, "len(" + xs + ")"}) && !modifiedSinceGuard(f, g, loc, index, xs) {
-		return true, "dominated by the `" + is + " == len(" + xs + ")` return (cursor never exceeds the length: stored only by the guarded increment)"
-	}
 	// x[i-1] after `if i == 0 { return }`
 	if be, ok := ast.Unparen(index).(*ast.BinaryExpr); ok && be.Op == token.SUB {
 		if cv := f.constOf(be.Y); cv != nil && cv.String() == "1" {
@@ -686,7 +682,13 @@ func indexGuarded(f *Func, g *Graph, n ast.Node, x, index ast.Expr) (bool, strin
 			}) {
 				return true, "dominated by the `" + base + " == 0` return"
 			}
+			// an upper-bound test alone does not keep base-1 from being -1
+			return false, exprKey(n.(ast.Expr)) + " is not guarded against " + base + " == 0 (index -1)"
 		}
+	}
+	// x[i] after `if i == len(x) { return }`
+	if g.HoldsAt(loc, Rel{is, token.NEQ, "len(" + xs + ")"}) && !modifiedSinceGuard(f, g, loc, index, xs) {
+		return true, "dominated by the `" + is + " == len(" + xs + ")` return (cursor never exceeds the length: stored only by the guarded increment)"
 	}
 	return false, exprKey(n.(ast.Expr)) + " can be out of range for some input"
 }
